@@ -531,6 +531,56 @@ def ast_oracle(R, ast):
   return None
 
 
+def file_oracle(R, asts):
+  """Save/Load (gzip with fixed mtime) and the module bundle: byte-stable files, loading gives the value back."""
+  import gzip
+  import shutil
+  import tempfile
+  import unittest.mock
+  pu = R.pickle_utils
+  d = tempfile.mkdtemp(prefix="c12-", dir=common.BUILD)
+  try:
+    for label, ast in asts:
+      sa = R.serialize_ast.SerializeAst(ast)
+      path = os.path.join(d, "m.pickled")
+      outs = []
+      for t in (1000.0, 987654321.0):
+        with unittest.mock.patch("time.time", return_value=t):
+          pu.Save(sa, path, compress=True)
+        outs.append(open(path, "rb").read())
+      if outs[0] != outs[1]:
+        return "%s: Save(compress=True) writes different files at different times" % label
+      if gzip.decompress(outs[0]) != pu.Encode(sa):
+        return "%s: gzip payload differs from Encode" % label
+      if not node_eq(R, pu.LoadAst(path, compress=True), sa):
+        return "%s: LoadAst(Save(x)) != x" % label
+      pu.SerializeAndSave(ast, path, compress=False, src_path="a/b.pyi", metadata=["k=v"])
+      raw = open(path, "rb").read()
+      if raw != pu.Serialize(ast, src_path="a/b.pyi", metadata=["k=v"]):
+        return "%s: SerializeAndSave differs from Serialize" % label
+      back = pu.LoadAst(path)
+      if back.src_path != "a/b.pyi" or back.metadata != ["k=v"]:
+        return "%s: src_path/metadata not preserved" % label
+    mods = [(label, label + ".pyi", ast) for label, ast in asts]
+    bundle = pu.PrepareModuleBundle(mods)
+    b = pu.Encode(bundle)
+    if b != pu.Encode(pu.PrepareModuleBundle(mods)):
+      return "module bundle encoding is not stable"
+    got = pu.DecodeBuiltins(b)
+    if len(got) != len(mods):
+      return "module bundle lost modules"
+    for (name, rawast), (label, fn, ast) in zip(got, mods):
+      if name != label or bytes(rawast) != pu.Serialize(ast, src_path=fn):
+        return "module bundle entry %s differs from Serialize" % label
+      if not R.pytd_utils.ASTeq(pu.DecodeAst(bytes(rawast)).ast, R.pytd_utils.CanonicalOrdering(ast)):
+        return "module bundle entry %s does not decode to the canonical AST" % label
+  except Exception as e:  # pylint: disable=broad-except
+    return "Save/Load raised %s: %s" % (type(e).__name__, str(e)[:200])
+  finally:
+    shutil.rmtree(d, ignore_errors=True)
+  return None
+
+
 def val_noptr(R, ast):
   """Token image of an AST ignoring ClassType.cls pointers and lookup caches."""
   p = R.pytd
@@ -656,7 +706,12 @@ def correspond(res, rng, tier):
     return [{"kind": "translator-failed", "log": PREP["error"]}]
   R = Real.get()
   t0 = time.time()
-  drv = common.ensure_driver("drv_c12")
+  # P built drv_c12 together with the Props module (extra_targets); only when P failed make sure the
+  # driver matches the regenerated schema (one more serialised lake call)
+  if res.cov.get("obligations") and res.cov.get("discharged") == res.cov.get("obligations"):
+    drv = common.Driver("drv_c12")
+  else:
+    drv = common.ensure_driver("drv_c12")
   gen = Gen(rng, R)
   disagreements = []
   cases = []
@@ -755,6 +810,12 @@ def correspond(res, rng, tier):
       nbytes += len(real)
       if c["legit"] and count_structs(c["obj"], R.msgspec) >= 3:
         distinct.add(real)
+  # ---- files
+  small_asts = [(a[0].replace(":", "_"), a[1]) for a in asts if a[0].startswith(("emitted", "generated-unit"))][:4]
+  fmsg = file_oracle(R, small_asts) if small_asts else None
+  if fmsg:
+    disagreements.append({"kind": "file-law", "what": fmsg})
+  trace("file laws done")
   # ---- K2
   k2 = correspond_eqhash(res, rng, tier, R, drv, gen, disagreements)
   trace("K2 done")
@@ -775,7 +836,7 @@ def correspond(res, rng, tier):
       "k1_by_origin": {o: sum(1 for c in cases if c["origin"] == o) for o in sorted({c["origin"] for c in cases})},
       "k1_by_class_of_root": per_class, "asts": [a[0] for a in asts][:80], "ast_law_failures": law_fail,
       "largest_case_bytes": max((len(m[1]) for m in meta if m[1] is not None), default=0),
-      "k2": k2, "seconds_real": round(t_real, 1), "seconds_driver": round(t_drv, 1),
+      "file_law_asts": len(small_asts), "k2": k2, "seconds_real": round(t_real, 1), "seconds_driver": round(t_drv, 1),
       "translator_notes": PREP["notes"],
   }
   res.add_samples([
@@ -1066,9 +1127,19 @@ def search(res, rng, disagreements, pfail):
       break
   trace("search: eq/hash pools done")
   for d in disagreements:
-    if d.get("kind") == "real-crash" and len(found) < 3:
+    if d.get("kind") == "real-crash" and not any("traceback" in f for f in found):
       found.append({"oracle": "pytype can load / emit / construct the AST that is to be serialised",
                     "input": d.get("input"), "what": d.get("what"), "traceback": d.get("traceback")})
+  for d in disagreements:
+    if d.get("kind") == "file-law":
+      for label, ast, src in ASTS:
+        if label.startswith(("emitted", "generated-unit")):
+          msg = file_oracle(R, [(label.replace(":", "_"), ast)])
+          if msg:
+            found.append({"oracle": "Save/LoadAst/PrepareModuleBundle: byte-stable files that load back",
+                          "ast": label, "program": src, "what": msg, "ast_repr": repr(ast)[:1500]})
+            break
+      break
   # 2. the inputs of the disagreements
   seen_cases = set()
   order = {"eqhash": 0, "codec": 1, "codec-law": 1, "ast-law": 2}
@@ -1124,6 +1195,15 @@ def search(res, rng, disagreements, pfail):
 
 
 def main():
+  # One C12 check at a time: the regenerated schema and the driver built from it are shared files, and a
+  # concurrent run against another tree (PYTYPE_REPO) would swap them under this one.
+  import fcntl
+  with open(os.path.join(common.BUILD, ".c12.run.lock"), "w") as lk:
+    fcntl.flock(lk, fcntl.LOCK_EX)
+    return _main()
+
+
+def _main():
   return common.run_check(
       "C12", REQUIRED, correspond, witnesses, search,
       trusted=[
